@@ -23,6 +23,10 @@ def tms_fields(o):
     return f
 
 
+# texts whose first or last character is one a tidy-minded parser might drop: blanks, line ends, NUL, no-break space, BOM
+EDGED = [" ", "operator 7 ", " lead", "\ttab", "line\r\n", "\u00a0nbsp\u00a0", "\x00nul", "nul\x00", "\ufeffbom", "a  b"]
+
+
 def ars_fields(o):
     h = o.header
     t = h.pdu_type.value
@@ -86,7 +90,7 @@ def run(ctx):
     # UCS-2 texts: empty, ASCII, long, and code units whose low / high octets sit at the extremes (0x00, 0x7F, 0x80, 0xFF) in first,
     # middle and last position
     texts = ["", "A", "x" * 100, "žluťoučký kůň " * 10, "中" * 200, "Übung", "é", "Αθήνα", "\u0080\u00ff\u0100\u7fff\u8000\uffff",
-             "a\u0080", "\u00ffz", "\u8080\u8080", "ab\u00e9cd\u0391"]
+             "a\u0080", "\u00ffz", "\u8080\u8080", "ab\u00e9cd\u0391"] + EDGED
     # ---- TMS
     for sn in range(128):
         for enc in (None, T.TMSEncoding.UCS2_LE):
@@ -108,7 +112,7 @@ def run(ctx):
                                                               address=a, availability_header=T.AvailabilitySecondHeader(cap) if cap else None))
         observe("tms", lambda: T.TextMessagingService(first_header=T.FirstHeader(pdu_type=T.TMSPDUType.TMS_ACKNOWLEDGEMENT), address=a))
     # ---- ARS
-    strs = ["", "a", "1234567", "uživatel-中文-x", "p" * 255, "é" * 127]
+    strs = ["", "a", "1234567", "uživatel-中文-x", "p" * 255, "é" * 127] + EDGED
     P = A.ARSPDUType
     for t in (P.DEVICE_REGISTRATION_REQUEST, P.USER_REGISTRATION_REQUEST):
         for more in (False, True):
@@ -123,7 +127,7 @@ def run(ctx):
                             device_identifier=dev, user_identifier=usr, password=pw, is_csbk_ars=csbk))
     # lengths and characters that make the octets of the CSBK trailer (0x10 0x80) and other header values turn up inside a message
     # that has no trailer: field lengths 16 and 128, total lengths with a low octet of 0x10 / 0x80, the control character U+0010
-    pool = ["", "\x10", "ab\x10", "q" * 16, "r" * 128, "s" * 127 + "\x10", "t" * 10, "u" * 11, "v" * 12, "w" * 13, "x" * 14, "y" * 15, "z" * 112, "k" * 125]
+    pool = ["", "\x10", "ab\x10", "q" * 16, "r" * 128, "s" * 127 + "\x10", "t" * 10, "u" * 11, "v" * 12, "w" * 13, "x" * 14, "y" * 15, "z" * 112, "k" * 125] + EDGED
     for t in (P.DEVICE_REGISTRATION_REQUEST, P.USER_REGISTRATION_REQUEST):
         for k in range(120 if ctx.quick else 8000):
             more = bool(rng.getrandbits(1))
